@@ -38,6 +38,14 @@ HELPER_HOLES = [
     ("cmp-operand-after-string", 'S {{ s: "abc", f: == {N}, .. }}', "3i32", ["actual", "__assert_struct_tmp"]),
     ("cmp-operand-after-regex", 'S {{ s: =~ "a.c", f: == {N}, .. }}', "3i32", ["re"]),
 ]
+# a user expression written AFTER a sibling of each template kind, in the same scope: whatever that sibling's template
+# bound must not be visible there (plain-looking names a template might use for its locals)
+PLAIN_NAMES = ["actual", "expected", "re", "tmp", "value", "result", "pattern", "elem", "__assert_struct_tmp"]
+for _kind, _sib in [("simple", "g: 4"), ("comparison", "g: > 0"), ("range", "g: 1..=9"), ("variant", "o: Some(3)"), ("slice", "xs: [10, ..]"),
+                    ("tuple", "t: (3, _)"), ("set", "xs: #(10, ..)"), ("map", 'm: #{{ "a": 1, .. }}'), ("closure", "g: |x| *x > 0"),
+                    ("like", "g: =~ Num(4)"), ("index", "xs[0]: 10"), ("method", "xs.len(): 3"), ("wildcard-struct", "t: _ {{ 0: 3, .. }}")]:
+    HELPER_HOLES.append(("cmp-operand-after-" + _kind, "S {{ " + _sib + ", f: == {N}, .. }}", "3i32", PLAIN_NAMES))
+    HELPER_HOLES.append(("elem-operand-after-" + _kind, "S {{ " + _sib + ", o: Some(== {N}), .. }}", "3i32", ["actual", "expected", "value"]))
 
 
 def make_cases(rng, _n):
